@@ -81,7 +81,7 @@ func NewEtcdMetaStore(ctx context.Context, etcdServerConfig config.EtcdServerCon
 		log.Warn("fail to get task collection position store")
 		return nil, err
 	}
-	replicateStore, err := meta2.NewEtcdReplicateStore(etcdServerConfig.Address, etcdServerConfig.RootPath)
+	replicateStore, err := meta2.NewEtcdReplicateStore(etcdServerConfig.Address, rootPath)
 	if err != nil {
 		log.Warn("fail to get replicate store", zap.Error(err))
 		return nil, err
